@@ -15,7 +15,9 @@ import build_impl  # noqa: E402
 import props       # noqa: E402
 
 LEAN = os.path.join(VERIF, "lean")
-EVID = os.path.join(VERIF, "evidence")
+# VERIF_EVIDENCE_DIR: runs against a tree that is not /repo (seeded changes, tools/seed_eval.py) write their
+# evidence and replay files elsewhere, so that /verif/evidence always describes /repo itself
+EVID = os.environ.get("VERIF_EVIDENCE_DIR") or os.path.join(VERIF, "evidence")
 REPLAY = os.path.join(EVID, "replay")
 ALLOWED_AXIOMS = {"propext", "Classical.choice", "Quot.sound"}
 FORBIDDEN = re.compile(r"\b(sorry|admit|native_decide|bv_decide|implemented_by|unsafe)\b|^\s*axiom\s|maxHeartbeats\s+0")
